@@ -1,7 +1,7 @@
 """C-shape rules: R-SHD (shadowing, scan accumulators), R-VAR (variant families), R-EFF (effects, re-entrancy),
 R-ALLOC (allocation/use agreement), R-PATH instances on the C DBA routines, n-D stride form."""
 from ..cfront import AnalysisError
-from ..ir import fmt, walk_stmts, walk_expr, stmt_exprs, dotted, sub_blocks
+from ..ir import fmt, walk_stmts, walk_expr, stmt_exprs, dotted, sub_blocks, orient
 from ..symexec import assigned_vars, deep_events, Env
 from .iterspace import paths_increments
 
@@ -469,7 +469,8 @@ def _covers(size, a, b, f):
         # running maximum idiom: t is a local updated as `if (arr[k] > t) t = arr[k]` over all k, v is arr[...]
         if t[0] == 'var' and v[0] == 'idx':
             for s in walk_stmts(f.body):
-                if s.k == 'if' and s.cond[0] == 'bin' and s.cond[1] == '>' and s.cond[3] == t and s.cond[2][0] == 'idx' and s.cond[2][1] == v[1]:
+                o = orient(s.cond, t) if s.k == 'if' else None          # t < arr[k]
+                if o is not None and o[0] == '<' and o[2][0] == 'idx' and o[2][1] == v[1]:
                     return True
         return False
     return (cov(terms[0], a) and cov(terms[1], b)) or (cov(terms[0], b) and cov(terms[1], a))
@@ -776,9 +777,11 @@ def _cmp_zero(c, cell):
         c, neg = c[2], not neg
     if c == cell:
         return 'zero' if neg else 'nonzero'
-    if c[0] == 'bin' and c[1] in ('!=', '==', '>') and ((c[2] == cell and c[3] == ('num', 0)) or (c[3] == cell and c[2] == ('num', 0) and c[1] != '>')):
-        pos = c[1] in ('!=', '>')
-        return 'nonzero' if pos != neg else 'zero'
+    if c[0] == 'bin' and c[1] in ('!=', '==') and ((c[2] == cell and c[3] == ('num', 0)) or (c[3] == cell and c[2] == ('num', 0))):
+        return 'nonzero' if (c[1] == '!=') != neg else 'zero'
+    o = orient(c, cell)
+    if o is not None and o[2] == ('num', 0) and o[0] == '>':
+        return 'nonzero' if not neg else 'zero'
     return None
 
 
